@@ -67,6 +67,9 @@ CORPUS = [
     ("multiline-text", HEAD + "audience\n  z expects always: [bob s] > 2 \\\n      && [bob s] < 5\nend\n", []),
     ("multiline-text", "title a tale \\\n  of two lines\n", []),
     ("empty-title", "title x~p~\ntitle ~p~\nattention ~p~\n", ["p="]),
+    # a parameter whose value is blank but not empty
+    ("blank-value", "title ~p~\nattention ~p~\nrole r\n  :a true\nend\ncast\n  bob plays r with ~p~\nend\n", ["p= "]),
+    ("blank-value", "title a\ntitle ~p~\n", ["p=\t "]),
     # a clause whose text ends in a backslash (followed by a blank in the source, so not a continuation there)
     ("final-backslash", "role A\n  :a printf x\\\\ \nend\naudience\n  w measures C:\\ \nend\n", []),
     ("final-backslash", "title the end\\ \nauthor nobody\n", []),
